@@ -418,9 +418,23 @@ def write_oracle(chk, judges, twin, store, i, strings):
             chk.fail(sig("write", "json", e), f"SDK-written JSON of a generated store is not schema-valid: {e}",
                      {"how": f"seed={chk.seed} store #{i} ({strings}); re-run ./check C05", "ids": ids, "error": list(e),
                       "document": d})
+    for cls, member, vt, lit in c05_spec.typed_values_json(d):
+        chk.count("lexical:json:" + vt)
+        if c05_spec.lexical_ok(vt, lit) is False:
+            chk.fail(f"C05:write:json:{cls}:{member}:lexical:{vt}",
+                     f"typed value written to JSON is no literal of its valueType {vt}: {lit!r}",
+                     {"how": f"seed={chk.seed} store #{i} ({strings}); re-run ./check C05", "ids": ids, "class": cls,
+                      "member": member, "valueType": vt, "literal": lit})
     bio = io.BytesIO()
     write_aas_xml_file(bio, store)
     root = judges.etree.fromstring(bio.getvalue())
+    for cls, member, vt, lit in c05_spec.typed_values_xml(root):
+        chk.count("lexical:xml:" + vt)
+        if c05_spec.lexical_ok(vt, lit) is False:
+            chk.fail(f"C05:write:xml:{cls}:{member}:lexical:{vt}",
+                     f"typed value written to XML is no literal of its valueType {vt}: {lit!r}",
+                     {"how": f"seed={chk.seed} store #{i} ({strings}); re-run ./check C05", "ids": ids, "class": cls,
+                      "member": member, "valueType": vt, "literal": lit})
     out["xml"] = root
     ok = judges.xml_valid(root)
     lx = judges.xml_errors() if not ok else []
@@ -470,10 +484,10 @@ def run(chk):
         chk.tie_broken("meta-crosscheck", probs)
     try:
         import py2coq.schemas as schemas
-        t = schemas.translate()
+        t = schemas.translate(strict=False)      # the oracles below need only the schema tables: they run even when a
         pats = c05_spec.Patterns(t)
         twin = c05_spec.Twin(t, pats)
-        judges = Judges()
+        judges = Judges()                        # translator aborted or the theorems no longer build
     except Exception as e:
         chk.tie_broken("schema-tables", f"{type(e).__name__}: {e}")
         return chk.finish(level="proof", rule="schema tables could not be built")
@@ -611,6 +625,7 @@ def run(chk):
         "`pattern` facets are not interpreted in Coq: theorems hold for every pattern oracle pm; in the correspondence Python's re decides them (JSON patterns on UTF-16 code units as ECMA-262 prescribes; XSD patterns by an own translation to re.fullmatch; xs:boolean / xs:base64Binary by own regular expressions)",
         "typed XSD values / bytes are leaves identified by their literal (C06); JSON text layer json.dumps/loads, XML text layer lxml",
         "real validators as judges: jsonschema Draft 2019-09 (its `pattern` keyword re-implemented on UTF-16 code units for documents with astral characters), lxml.etree.XMLSchema (libxml2); libxml2 reads the range \\]-~ of the contentType pattern as three characters, so quoted content-type parameters are generated in upper case",
+        "lexical spaces of the 30 XSD value types as regular expressions + integer ranges in tools/c05_spec.py (written from XML Schema Part 2), applied to every typed value / min / max of SDK output in both formats",
         "harness tools/c05.py, tools/c05_spec.py, tools/aasgen.py, tools/codec_terms.py",
     ]
     chk.assumptions = ["C06 (lexical forms of typed values)", "json / lxml parse and print the abstract documents faithfully"]
